@@ -311,8 +311,10 @@ def run_case(sh, s, d, case):
                 pending.update(pend)
                 names[:] = nms
                 trace.append('rollback#%d' % j)
-                # pending blobs must read the savepoint bytes again
-                for name, exp in pending.items():
+                # every live blob must read the bytes it had at the savepoint again (pending ones: the savepoint bytes,
+                # the others: their committed bytes)
+                for name in [n for n in names if content(n) is not None]:
+                    exp = content(name)
                     with c.root()[name].open('r') as f:
                         got = f.read()
                     if got != exp:
